@@ -33,9 +33,14 @@ ASSUMPTIONS = ['component names are the ones the library assigns (upper case, ne
                'different numeric classes under one key are outside the domain',
                'serialise-and-parse copies are demanded to be equal only for trees built through Component.add with '
                'the types the parser assigns to the property names (the parser cannot know a hand-picked class)',
+               'a vBinary under ATTACH is read back as vUri (the parser ignores VALUE=BINARY; value typing is C02), '
+               'and a vRecur built from scalar parts differs from the parsed list form (finding '
+               'vrecur-scalar-vs-list): generated trees carry RRULE in the parsed form and binary values only as '
+               'hand-picked classes',
                'pickle / copy.deepcopy reproduce attribute state (interpreter mechanisms)']
 
-ZONES = ['Europe/Berlin', 'America/New_York', 'Asia/Tokyo']
+# zones with DST: from_tzid is fast for them (a fixed-offset zone is searched up to year 9999)
+ZONES = ['Europe/Berlin', 'America/New_York', 'Australia/Sydney']
 TEXTS = ['a', 'b', 'Hello, World; ok', 'x\\y', 'café', '', 'line\nbreak', 'A', 'a:b"c']
 KEYCASE = [str.upper, str.lower, str.title, lambda s: s]
 
@@ -150,7 +155,8 @@ def _p_attendee(rng, c):
 
 
 def _p_rrule(rng, c):
-    c.add(key(rng, 'rrule'), {'freq': rng.choice(['daily', 'weekly']), 'count': rng.randint(1, 5)})
+    # list form: what the parser produces (the scalar form is the witness `vrecur-scalar-vs-list`)
+    c.add(key(rng, 'rrule'), {'freq': [rng.choice(['DAILY', 'WEEKLY'])], 'count': [rng.randint(1, 5)]})
 
 
 def _p_trigger(rng, c):
@@ -159,9 +165,9 @@ def _p_trigger(rng, c):
 
 def _p_freebusy(rng, c):
     s = datetime(2020, rng.randint(1, 12), rng.randint(1, 28), 8, 0, 0, tzinfo=timezone.utc)
-    c.add(key(rng, 'freebusy'), [(s, s + timedelta(hours=rng.randint(1, 4)))])
+    c.add(key(rng, 'freebusy'), (s, s + timedelta(hours=rng.randint(1, 4))))
     if rng.random() < 0.4:
-        c.add(key(rng, 'freebusy'), [(s, timedelta(hours=2))])
+        c.add(key(rng, 'freebusy'), (s, timedelta(hours=2)))
 
 
 def _p_tzoffset(rng, c):
@@ -184,7 +190,7 @@ def _p_attach_binary(rng, c):
 
 API_PROPS = [_p_summary, _p_description, _p_xprop, _p_sequence, _p_priority, _p_dtstart, _p_dtend, _p_due,
              _p_recurrence_id, _p_dtstamp, _p_rdate, _p_exdate, _p_geo, _p_categories, _p_duration, _p_attendee,
-             _p_rrule, _p_trigger, _p_freebusy, _p_tzoffset, _p_url, _p_attach_binary]
+             _p_rrule, _p_trigger, _p_freebusy, _p_tzoffset, _p_url]
 
 
 # hand-assigned values: classes the parser would not pick for the name (never reparsed)
@@ -219,7 +225,8 @@ def _h_mixed_list(rng, c):
     c['X-MIXED'] = [vText('a'), vInt(1), vText(rng.choice(['b', 'c']))]
 
 
-HAND_PROPS = [_h_float, _h_int_text, _h_empty_list, _h_time, _h_period, _h_mixed_list]
+# vBinary under ATTACH: the parser ignores VALUE=BINARY and reads a vUri, so it counts as hand-picked
+HAND_PROPS = [_h_float, _h_int_text, _h_empty_list, _h_time, _h_period, _h_mixed_list, _p_attach_binary]
 
 KIND_WEIGHTS = ['VEVENT'] * 5 + ['VTODO'] * 3 + ['VJOURNAL', 'VFREEBUSY', 'VALARM', 'VALARM', 'STANDARD', 'DAYLIGHT',
                                                 'X-FOO', 'X-FOO', 'X-BAR', 'VCALENDAR']
@@ -536,22 +543,34 @@ def eq_flag(a, b):
     return '1' if r is True else ('0' if r is False else 'other:' + repr(r))
 
 
+def safe(f):
+    """canonical answer of the implementation, exceptions mapped to a small enum"""
+    try:
+        return f()
+    except Exception as ex:
+        return 'err:' + type(ex).__name__
+
+
 def corr_tree(ctx, t, rng, eq_budget):
     from icalendar import Calendar
     et = enc_tree(tree_of(t))
-    pre = t.walk()
+    pre = ref_preorder(t)
     nt = len(pre) >= 3
     ctx.count('tree_nodes', len(pre))
-    ctx.corr('w_preorder', [et], str(len(pre)) + ''.join('|' + enc(c.name) for c in pre) + '\t' + str(len(pre)), nt)
+
+    def names_of_walk():
+        w = t.walk()
+        return str(len(w)) + ''.join('|' + enc(c.name) for c in w) + '\t' + str(len(w))
+    ctx.corr('w_preorder', [et], safe(names_of_walk), nt)
     names = sorted({c.name for c in pre}) + ['VNOTHERE', 'X-FO']
     for n in names:
         for sp in spellings(rng, n):
             pk = rng.choice(list(PREDS))
-            ctx.corr('w_walk', [et, 'S', enc(sp), pk], enc_comps(t.walk(sp, PREDS[pk])), nt)
+            ctx.corr('w_walk', [et, 'S', enc(sp), pk], safe(lambda: enc_comps(t.walk(sp, PREDS[pk]))), nt)
     for pk, f in PREDS.items():
-        ctx.corr('w_walk', [et, 'N', '', pk], enc_comps(t.walk(select=f)), nt)
+        ctx.corr('w_walk', [et, 'N', '', pk], safe(lambda: enc_comps(t.walk(select=f))), nt)
     for which in ('events', 'todos', 'timezones'):
-        ctx.corr('w_acc', [et, which], enc_comps(getattr(Calendar, which).fget(t)), nt)
+        ctx.corr('w_acc', [et, which], safe(lambda: enc_comps(getattr(Calendar, which).fget(t))), nt)
     # equality
     others = [('copy', copy.deepcopy(t))]
     subs = t.subcomponents
@@ -567,7 +586,7 @@ def corr_tree(ctx, t, rng, eq_budget):
         tgt_i = pre.index(rng.choice(inner))
         for perm in list(itertools.permutations(range(len(pre[tgt_i].subcomponents))))[1:]:
             cp = copy.deepcopy(t)
-            node = cp.walk()[tgt_i]
+            node = ref_preorder(cp)[tgt_i]
             node.subcomponents = [node.subcomponents[i] for i in perm]
             others.append(('perm-inner', cp))
     keys = list(t.keys())
@@ -592,7 +611,7 @@ def correspondence(ctx):
     rng = ctx.rng
     deep = ctx.tier == 'thorough' or ctx.escalate
     max_depth = 6 if deep else 4
-    n_trees = ctx.vol(40, 8)
+    n_trees = ctx.vol(80, 6)
     prev = None
     try:
         for pname, use in providers():
@@ -753,6 +772,8 @@ def check_copies(ctx, t, pname, reparse):
         cls = None
         if how == 'reparse' and has_one_element_list(t):
             cls = 'one-element-list-vs-scalar'
+        elif how == 'reparse' and has_scalar_recur(t):
+            cls = 'vrecur-scalar-vs-list'
         if c is t:
             ctx.violation('copy-identity', dict(inp, how=how), 'the copy is the original object')
         expect_eq(ctx, 'copy:' + how, t, c, dict(inp, how=how), True, cls)
@@ -763,6 +784,14 @@ def check_copies(ctx, t, pname, reparse):
             continue
         if b1 != b0:
             ctx.violation('copy-bytes', dict(inp, how=how), f'the {how} copy serialises differently', cls)
+
+
+def has_scalar_recur(t):
+    from icalendar.prop import vRecur
+    def scalar(v):
+        return isinstance(v, vRecur) and any(not isinstance(x, list) for x in v.values())
+    return any(scalar(v) or (isinstance(v, list) and any(scalar(x) for x in v))
+               for c in ref_preorder(t) for v in c.values())
 
 
 def has_one_element_list(t):
@@ -842,13 +871,17 @@ def oracle(ctx):
             one.add('attendee', ['a'])
             ctx.evaluated(('one-element-list', pname))
             check_copies(ctx, one, pname, True)
+            rec = Event()
+            rec.add('rrule', {'freq': 'weekly', 'count': 2})
+            ctx.evaluated(('vrecur-scalar', pname))
+            check_copies(ctx, rec, pname, True)
             for label, t in corpus_trees(rng, pname):
                 ctx.evaluated(('corpus', label, pname))
                 check_walk(ctx, t, rng)
                 check_equality(ctx, t, rng)
                 check_copies(ctx, t, pname, True)
             trees = [(deep_chain(rng, max_depth), True)]
-            for i in range(ctx.vol(30, 8)):
+            for i in range(ctx.vol(70, 6)):
                 api = i % 2 == 0
                 trees.append((rand_tree(rng, rng.randint(2, max_depth), [rng.choice([6, 12, 25, 40])], api_only=api,
                                         root=rng.choice(['VCALENDAR', 'VCALENDAR', None])), api))
